@@ -219,16 +219,35 @@ func ruleTransportPassThrough(c *Ctx, rule string) {
 
 func ruleHttpIdleCleanup(c *Ctx, rule string) {
 	p := c.p
-	f := func(d string) bool { return d == "readCh" }
+	f := func(d string) bool { return d == "readCh" || d == "done" }
 	ruleCloseSendExclusion(c, rule, f)
 	ruleNoDoubleClose(c, rule, f)
+	// every close in the HTTP transport is accounted for above; the delivery channel itself has senders,
+	// so any close of it is a close/send pair examined by the exclusion rule
+	nclose := 0
+	for _, u := range p.chanUses() {
+		if u.kind == "close" && strings.HasPrefix(p.fnKey(rootFn(u.instr.Parent())), "goat.GoatOverHttp.") {
+			nclose++
+		}
+	}
+	c.inv("close_sites_in_http_transport", nclose)
 	sh := p.MustFn("goat.GoatOverHttp.ServeHTTP")
+	n := 0
 	for _, op := range p.Blocks().ops[sh] {
-		if op.Kind != "send" {
+		isDelivery := false
+		for _, ch := range op.Chans {
+			if p.chanDesc(ch) == "readCh" {
+				isDelivery = true
+			}
+		}
+		if !isDelivery {
 			continue
 		}
-		c.check(rule, "ServeHTTP:delivery-escapable", false, "the delivery send is a bare channel send: when nobody reads the connection the HTTP handler goroutine blocks for ever", p.ipos(op.Instr))
+		n++
+		esc := op.Kind == "select" && len(op.EscapeCtx) > 0
+		c.check(rule, "ServeHTTP:delivery-escapable", esc, "the delivery is escapable by the request's context (a bare send blocks the HTTP handler goroutine for ever when nobody reads the connection)", p.ipos(op.Instr))
 	}
+	c.floor(rule, "delivery operations in ServeHTTP", n, 1)
 }
 
 // ================= C20 =================
